@@ -2,6 +2,7 @@ SPECIFICATION Spec
 CONSTANTS
   Denoms = {"eth"}
   Mods <- Mods0
+  AddrMode = "simple"
   Histories <- HistT
 INVARIANTS Agree
 CHECK_DEADLOCK FALSE
